@@ -138,8 +138,9 @@ def expand_many(model, hists, jobs, expand_names, want_digest=True, label="E2-ex
         for i in range(nsl):
             items.append((hi, (model, h, (), expand_names, (i, nsl), with_probes)))
         if want_digest:
-            items.append((hi, (model, h, (0,), expand_names, (0, 10 ** 9))))   # slice selecting event 0 only
-            items.append((hi, (model, h, (1,), expand_names, (1, 10 ** 9))))
+            for o in getattr(model, "digest_orders", (0, 1)):
+                # slice (o, 10**9) selects at most one event: the job is essentially the digest alone
+                items.append((hi, (model, h, (o,), expand_names, (o, 10 ** 9))))
     results = pmap(expand_state, [a for _, a in items], jobs, label, always_fork=True)
     merged = [dict(hist=tuple(h), edges={}, probes={}, digests={}, key=None, keys=set()) for h in hists]
     order = dict((e.name, i) for i, e in enumerate(model.events()))
